@@ -32,7 +32,7 @@ CHECKS = {
  "C10": ("state-based sampling checks on trees reached by generated histories: lattice words, frequency tests, exact induced law of integer trees by enumerating every target with a forced word, exhaustive 2^23 targets for f32; thorough: libFuzzer campaign (tree_sample)", "§5 C10",
          "Exploration with an exhaustive sub-space: states from fresh builds and random histories (lengths 1..1e4); for f32 trees all 2^23 values of the float draw are enumerated (exact induced law, any panic found with certainty).",
          "as C01 for frequencies; float trees judged against the weights the structure reports"),
- "C11": ("per-sample simplex predicates + statistical marginal/pairwise Beta law tests over generated alpha vectors", "§5 C11",
+ "C11": ("per-sample simplex predicates + statistical marginal/pairwise Beta law tests + exact-duplicate atom test on components over generated alpha vectors (fixed short / long / switch-straddling vectors and random ones)", "§5 C11",
          "Exploration: alpha vectors of every class (all<=0.1, all>0.1, mixed, straddling 0.1 +- ulp, lengths 2..64), f32/f64; sample vs sample_to_slice bit equality on cloned streams.",
          "as C01; components judged down to the simplex resolution eps*2^12"),
  "C12": ("per-point norm predicates + product-bin uniformity tests (KL-Chernoff per bin, multinomial KL) + exact-duplicate atom test on the points, lattice words for the norm clause", "§5 C12",
@@ -41,7 +41,7 @@ CHECKS = {
  "C13": ("exhaustive enumeration of all 2^24 first-word patterns per cell, exact induced CDF vs documented CDF", "§5 C13",
          "Exhaustive in the random dimension (no sampling error), exploration in the parameter dimension (grid + canonical + random cells): exact Kolmogorov distance against the stated f32 resolution bound and support of every reachable output.",
          "documented CDF evaluated in f64; golden-validated"),
- "C14": ("metamorphic stateful testing: proptest schedules of interleaved sample calls (pairs, triples, run lengths), isolated replay of every recorded call in a fresh thread, per-call word budget with isolated termination check; thorough: libFuzzer campaign (schedule)", "§5 C14",
+ "C14": ("metamorphic stateful testing: proptest schedules of interleaved sample calls (pairs, triples, run lengths), isolated replay of every recorded call in a fresh thread, per-call word budget with isolated termination check, fresh-process probes for process-global state, equal vectors in differently aligned buffers; thorough: libFuzzer campaign (schedule)", "§5 C14",
          "Exploration: schedules of up to 199 steps over up to 6 objects of any family; every call replayed on a fresh object with the recorded RNG state in a fresh thread and reverse order; clone/rebuild/sample_iter equivalence; Debug/PartialEq unchanged.",
          "hidden state is visible only through history dependence of results / word counts / RNG state"),
  "C15": ("round-trip property over generated distribution values (two JSON routes), equality + paired sampling oracle", "§5 C15",
